@@ -60,7 +60,7 @@ DoMerge(s, src, load) ==
               THEN LET s3 == Ev([Blank(s2, sp) EXCEPT !.life[sp] = "persistent", !.key[sp] = k, !.imap[k] = sp, !.pk[sp] = k,
                                                         !.v[sp] = s2.work[k], !.exp[sp] = {}], "loaded_as_persistent", sp)
                    IN WithRet(CopyAttrs(s3, sp, src), "new:" \o sp)
-              ELSE IF "id" \notin src.S THEN R(s2, "nospare")        \* a new instance without primary key: not generated
+              ELSE IF src.S # BothAttrs THEN R(s2, "nospare")        \* a new row from a partially loaded source (NULL / missing pk): not generated
               ELSE LET s3 == Ev([Blank(s2, sp) EXCEPT !.life[sp] = "pending", !.new = Append(@, sp)], "transient_to_pending", sp)
                    IN WithRet(CopyAttrs(s3, sp, src), "new:" \o sp)
   ELSE IF src.kind = "T" THEN R(s, "InvalidRequestError")
@@ -279,7 +279,7 @@ FlushOutcome(s) == LET f == DoFlush(Clear(s)) IN [ret |-> f.ret, work |-> f.st.w
 DropKeepsFlush == [][ last'.a = "DropRef" => FlushOutcome(st') = FlushOutcome(st) ]_vars
 \* the identity map shrinks through garbage collection only by clean objects
 OnlyCleanLeave == [][ \A o \in Objs : (st'.life[o] = Gone /\ st.life[o] # Gone /\ last'.a = "DropRef") =>
-                         (~st.mod[o] /\ o \notin st.sdel /\ st.life[o] \notin {"pending"}) ]_vars
+                             (o \notin st.sdel /\ st.life[o] # "pending" /\ (InMapS(st, o) => ~st.mod[o])) ]_vars
 HeldStay == \A o \in Objs : (~st.ref[o] /\ Held(st, o)) => st.life[o] # Gone
 GoneNotInSession == \A o \in Objs : st.life[o] = Gone => (~InMapS(st, o) /\ o \notin Range(st.new) /\ o \notin st.sdel)
 \* ---------- C51
